@@ -78,6 +78,7 @@ func one(x *mon.Ctx, ar *arena, part string, s spec, n, al, i int) {
 	if a.NonceSize() != s.ns || a.Overhead() != s.ts {
 		c.Fail("mismatch", "%v: NonceSize()=%d Overhead()=%d", s, a.NonceSize(), a.Overhead())
 	}
+	c.Event(fmt.Sprintf("impl %T", a), 1)
 	c.Detail("key", key)
 	c.Detail("nonce", nonce)
 	want := s.ref(key, nonce, pt, ad)
@@ -89,7 +90,7 @@ func one(x *mon.Ctx, ar *arena, part string, s spec, n, al, i int) {
 func gcmGrid(x *mon.Ctx) {
 	selfTest(x)
 	ar := &arena{}
-	reps := x.Scale(4, 24)
+	reps := x.Scale(4, 200)
 	i := 0
 	std := gcmSpec("lib", 12, 16)
 	// A: every plaintext length through the 128/64/16/tail phases, aad cycling
@@ -155,7 +156,7 @@ func gcmGrid(x *mon.Ctx) {
 func ccmGrid(x *mon.Ctx) {
 	selfTest(x)
 	ar := &arena{}
-	reps := x.Scale(2, 12)
+	reps := x.Scale(2, 100)
 	i := 0
 	// A: every (nonce size, tag size) with plaintext lengths cycling; general constructor
 	for ns := 7; ns <= 13; ns++ {
@@ -251,7 +252,7 @@ func lowWords(thorough bool) []uint32 {
 func gcmWrap(x *mon.Ctx) {
 	selfTest(x)
 	ar := &arena{}
-	reps := x.Scale(1, 4)
+	reps := x.Scale(1, 30)
 	lens := []int{1, 16, 17, 48, 63, 64, 65, 100, 127, 128, 129, 160, 192, 200, 255, 256, 257, 300, 384, 400, 513, 640, 1100}
 	i := 0
 	for _, lw := range lowWords(x.Thorough()) {
@@ -300,6 +301,7 @@ func gcmWrap(x *mon.Ctx) {
 					c.End()
 					continue
 				}
+				c.Event(fmt.Sprintf("impl %T", a), 1)
 				pt, ad := c.R.Bytes(n), c.R.Bytes(aadCycle[i%len(aadCycle)])
 				want := aead.GCMSeal(enc, nonce, pt, ad, 16)
 				sealOpen(c, ar, s, a, nonce, pt, ad, want, ms, mo, hiIn, hiOut)
@@ -344,7 +346,7 @@ func tamper(x *mon.Ctx) {
 	}
 	jobs = append(jobs, job{ccmSpec("lib", 13, 4, true), short}, job{ccmSpec("lib", 7, 16, true), short}, job{ccmSpec("opaque", 12, 8, false), short[:8]}, job{ccmSpec("opaque", 9, 10, true), short[:6]})
 
-	reps := x.Scale(1, 6)
+	reps := x.Scale(1, 40)
 	i := 0
 	for _, j := range jobs {
 		for _, n := range j.lens {
@@ -361,7 +363,7 @@ func tamper(x *mon.Ctx) {
 	// long associated data (CCM 6-byte length header; GCM many GHASH blocks): positions sampled
 	for _, s := range []spec{ccmSpec("lib", 12, 16, false), ccmSpec("lib", 8, 6, true), gcmSpec("lib", 12, 16), gcmSpec("lib", 24, 16)} {
 		for r := 0; r < reps; r++ {
-			tamperCase(x, ar, s, 77, 65280+r, 397)
+			tamperCase(x, ar, s, 77, 65280+r, 1601)
 			tamperCase(x, ar, s, 4096+33, 20, 29)
 		}
 	}
@@ -394,5 +396,6 @@ func tamperCase(x *mon.Ctx, ar *arena, s spec, n, al, stride int) {
 		return
 	}
 	c.Event("tamper_messages", 1)
+	c.Event(fmt.Sprintf("impl %T", a), 1)
 	tamperSweep(c, ar, s, a, nonce, want, ad, pt, stride)
 }
